@@ -74,7 +74,7 @@ theorem runCheck_ignore (nm : NosecMap) (env : Env) (c : Check) :
     | some raw =>
       simp only []
       rw [emit_ignore nm]
-      cases emit nm env.ctx (fillId c raw) <;> rfl
+      cases emit nm env.ctx (fillId c (raw.resolve env.v)) <;> rfl
 
 theorem runVisit_ignore (checks : List Check) (nm : NosecMap) (lines : List Str) (s : VState) (v : Visit) :
     runVisit checks [] lines s v = (runVisit checks nm lines s v).map Event.asFinding := by
